@@ -70,4 +70,35 @@ def run(ctx):
             fail('writing the re-read game does not reproduce the written file'); continue
     corr.sample({'irregularity': items[0][0], 'bytes': len(items[0][1]), 'hex_prefix': items[0][1][:40].hex()})
     corr.sample({'irregularity': items[5][0], 'bytes': len(items[5][1])})
+    # irregular renderings inside the class of the theorems (Proofs/Irregular2.v): the generator's stream must be the
+    # stream the Coq definition describes (emit_irr), the decidable membership test (wf_irreg2_b, proved sound) must
+    # accept the generator's description, and the real reader must return the game the theorem promises
+    icases = []; ibytes = {}
+    for i in range(400 if thorough else 60):
+        r = synth.gen_wf(rng, nframes=rng.choice([0, 1, 3, 6]))
+        b, ex, ev, j, nsw = synth.irregular_in_class(rng, r)
+        cid = 'q%d' % i
+        icases.append((cid, synth.irr_case(r, ex, ev, j, '-'))); ibytes[cid] = (b, nsw, len(ex), len(j))
+    if getattr(ctx, 'model_ok', True):
+        from .readerlib import canon
+        from .common import first_diff
+        imodel = core.run_parallel(core.run_model, 'emitirr', icases, n=8)
+        iimpl = core.run_parallel(R.run_pvh, 'read', [(cid, [ibytes[cid][0].hex(), '-', '-', '-']) for cid, _ in icases], n=8)
+        for cid, f in icases:
+            b, nsw, nex, nj = ibytes[cid]
+            corr.seen('irr' + b.hex()[:200] + str(len(b))); corr.count('irregular_in_class')
+            corr.count('irr_swaps' if nsw else 'irr_noswap'); corr.count('irr_extras' if nex else 'irr_noextras'); corr.count('irr_junk' if nj else 'irr_nojunk')
+            m = imodel.get(cid) or []
+            md = dump_dict(m[:3])
+            info = {'mode': 'emitirr', 'fields': [x[:4000] for x in f], 'stream_hex': b.hex(), 'swaps': nsw}
+            if any('UNMODELLED' in l for l in m[:5]):
+                continue
+            if md.get('emit') != b.hex():
+                corr.disagreements.append((cid, 'emit_irr of the Coq definition differs from the generated irregular stream', info)); continue
+            if md.get('wf') != '1' or md.get('wf_irreg') != '1':
+                corr.disagreements.append((cid, 'generated irregular rendering is not in the class of the theorem: wf=%s wf_irreg2_b=%s' % (md.get('wf'), md.get('wf_irreg')), info)); continue
+            a = canon(iimpl.get(cid)); bm = m[3:]
+            if a != bm:
+                corr.oracle_failures.append((cid, 'reader on an irregular rendering does not return the game of the canonical replay: %s' % first_diff(a, bm),
+                                             dict(info, rerun='pvh read <file: x <stream_hex> - - ->')))
     return corr
